@@ -18,7 +18,7 @@ RULE = ("Inputs: st.binary, st.text (all planes, surrogates), decoded markup sou
         "one html element; its element children are head then body|frameset (+ noframes after frameset); no non-whitespace text directly under html). A per-case CPU watchdog "
         "yields 'inconclusive', never a violation. Non-trivial = the input has a tag-like construct and the parse recorded an error, or a family with N >= 1000; "
         "distinct = distinct (family, N-bucket, configuration) or (error-code set, configuration) signature.")
-ASSUMPTIONS = ["termination is not decided: a watchdog timeout is reported as inconclusive",
+ASSUMPTIONS = ["termination in general is not decided: a watchdog timeout is 'inconclusive' unless the re-run under HTMLParser(debug=True) with a counting log shows more than 200*(n+50) token dispatches for n input characters (deterministic livelock verdict)",
                "a noframes element after frameset under html is what the algorithm itself produces and is accepted"]
 SHRINK = {"text": "str", "data": "bytes"}
 
@@ -126,7 +126,7 @@ def check_case(case, budget=None):
     builder, ns, ft = case.get("builder", "dom"), case.get("namespace", True), case.get("full_tree", False)
     container, scripting = case.get("container"), bool(case.get("scripting"))
     size = len(inp)
-    budget = budget or int(20 + size / 200.0)
+    budget = budget or int(6 + size / 100.0)
     fam = case.get("family")
     taglike = isinstance(inp, str) and "<" in inp or isinstance(inp, bytes) and b"<" in inp
     signal.signal(signal.SIGALRM, _alarm)
@@ -139,6 +139,21 @@ def check_case(case, budget=None):
         finally:
             signal.alarm(0)
     except _Timeout:
+        # a time budget is not an oracle: decide by counting dispatches instead (deterministic)
+        limit = 200 * (size + 50)
+        signal.alarm(max(60, 4 * budget))
+        try:
+            try:
+                h5.parse_bounded(inp, limit, builder=builder, namespace=ns, scripting=scripting, container=container, full_tree=ft)
+            finally:
+                signal.alarm(0)
+        except h5.DispatchLimit as e:
+            return Verdict("fail", "non-termination: the tree constructor dispatched more than %d times for %d input characters (%s); input %s container=%r"
+                           % (limit, size, short(str(e), 200), short(inp, 200), container), "non-termination", nontrivial=True)
+        except _Timeout:
+            pass
+        except Exception:
+            pass
         return Verdict("inconclusive", "watchdog after %ds on %d chars" % (budget, size))
     except RecursionError as e:
         fr = _innermost_frame(e.__traceback__)
